@@ -139,6 +139,9 @@ mod archetypes;
 mod doc;
 mod hlist;
 mod r#macro;
+#[cfg(brood_verif)]
+#[doc(hidden)]
+pub mod verif;
 
 #[doc(inline)]
 pub use query::Query;
